@@ -65,9 +65,9 @@ TextAtoms == {"Str", "StrCtl", "StrUni", "Reent", "DispVal", "DbgVal", "EnumUnit
               "IdTyped", "IdHex", "KindSpan", "KindMetric", "AggCount", "AggSum", "AggLast"}
 BigAtoms == {"U64Big", "I128", "U128"}
 FloatAtoms == {"F64", "NaN", "Inf"}
-AbsentAtoms == {"Null", "None"}
+AbsentAtoms == {"Null", "None", "OptNone"}
 Atoms == TextAtoms \cup BigAtoms \cup FloatAtoms \cup AbsentAtoms
-            \cup {"Bool", "I64", "Bytes", "Struct", "EnumNewtype"}
+            \cup {"Bool", "I64", "Bytes", "BytesRef", "Struct", "EnumNewtype"}
 \* map key kinds: "Bytes" = a byte string, "SeqKey" = a sequence / tuple used as a key
 KeyKinds == {"Bool", "I64", "F64", "Bytes", "SeqKey"}
 \* keys JSON object member names cannot be derived from by sval_json: the default file writer
@@ -98,13 +98,16 @@ AnyOf(s) ==
       [] h \in BigAtoms -> <<"decstr">>
       [] h \in FloatAtoms -> <<"double">>
       [] h \in TextAtoms -> <<"string">>
-      [] h = "Bytes" -> <<"bytes">>
+      [] h \in {"Bytes", "BytesRef"} -> <<"bytes">>
       [] h = "Struct" -> <<"record">>
       [] h = "EnumNewtype" -> <<"enum">> \o AnyOf(EnumInner)
       [] h = "Seq" -> <<"array">> \o AnyOf(Rest(s, 2))
       [] h = "MapStr" -> <<"kvlist", "Str">> \o AnyOf(Rest(s, 2))
       [] h = "MapKey" -> <<"kvlist", s[2]>> \o AnyOf(Rest(s, 3))   \* key rendered as text
       [] h = "Some" -> AnyOf(Rest(s, 2))
+      \* a fixed-size array of primitives ([T; N] as a value) / an Option of a primitive
+      [] h = "Arr" -> <<"array">> \o AnyOf(Rest(s, 2))
+      [] h = "Opt" -> AnyOf(Rest(s, 2))
 
 \* JSON image for the rolling file (level A).  JSON integers are unbounded: exact digits.
 \* JSON has no NaN/Infinity: any well-formed rendering is accepted.
@@ -117,7 +120,7 @@ JsonOf(s) ==
       [] h = "F64" -> <<"number">>
       [] h \in {"NaN", "Inf"} -> <<"any">>
       [] h \in TextAtoms -> <<"string">>
-      [] h = "Bytes" -> <<"bytes">>
+      [] h \in {"Bytes", "BytesRef"} -> <<"bytes">>
       [] h = "Struct" -> <<"record">>
       [] h = "EnumNewtype" -> <<"enum">> \o JsonOf(EnumInner)
       [] h = "Seq" -> <<"array">> \o JsonOf(Rest(s, 2))
@@ -125,6 +128,9 @@ JsonOf(s) ==
       [] h = "MapKey" -> IF s[2] \in UnencodableKeys THEN <<"unencodable">>
                          ELSE <<"object", s[2]>> \o JsonOf(Rest(s, 3))
       [] h = "Some" -> JsonOf(Rest(s, 2))
+      \* a fixed-size array of primitives ([T; N] as a value) / an Option of a primitive
+      [] h = "Arr" -> <<"array">> \o JsonOf(Rest(s, 2))
+      [] h = "Opt" -> JsonOf(Rest(s, 2))
 
 \* Level B: emitter/otlp/src/data/any_value.rs AnyStream.  Only null/bool/text/i64/f64/
 \* binary/seq/map are overridden; sval's defaults route u64/i128/u128 through i64 when they
@@ -140,7 +146,7 @@ AnyStreamB(s) ==
       [] h \in BigAtoms -> <<"decstr">>
       [] h \in FloatAtoms -> <<"double">>
       [] h \in TextAtoms -> <<"string">>
-      [] h = "Bytes" -> <<"bytes">>
+      [] h \in {"Bytes", "BytesRef"} -> <<"bytes">>
       [] h = "Struct" -> <<"record">>
       [] h = "EnumNewtype" -> <<"enum">> \o AnyStreamB(EnumInner)
       [] h = "Seq" -> <<"array">> \o AnyStreamB(Rest(s, 2))
@@ -148,6 +154,9 @@ AnyStreamB(s) ==
       [] h = "MapKey" -> IF FixF8 THEN <<"kvlist", s[2]>> \o AnyStreamB(Rest(s, 3))
                          ELSE <<"HOLE">>
       [] h = "Some" -> AnyStreamB(Rest(s, 2))
+      \* a fixed-size array of primitives ([T; N] as a value) / an Option of a primitive
+      [] h = "Arr" -> <<"array">> \o AnyStreamB(Rest(s, 2))
+      [] h = "Opt" -> AnyStreamB(Rest(s, 2))
 
 HasUnencodable(img) == \E i \in 1..Len(img) : img[i] = "unencodable"
 HasHole(img) == \E i \in 1..Len(img) : img[i] = "HOLE"
@@ -194,7 +203,10 @@ TermRecord(e) ==
      lvl |-> FirstIdx(e, "lvl"),          \* # 0: the level's text
      kind |-> FirstIdx(e, "evt_kind"),    \* # 0: the kind's text
      err |-> FirstIdx(e, "err"),          \* # 0 and an error value: its text, then every cause in chain order
-     hole |-> FirstIdx(e, "a"),           \* the template's hole: the value's rendering inside the message
+     hole |-> IF e.tpl = "literal" THEN 0 ELSE FirstIdx(e, "a"),   \* the template's hole: the value's rendering inside the message
+     fmt |-> e.tpl = "fmt_hole",          \* ... through the hole's formatter (`{a:>12}`-style)
+     \* the same line on every form of the sink
+     forms |-> {"stdout", "stdout colored", "stderr", "stderr colored"},
      trace |-> FirstIdx(e, "trace_id"), span |-> FirstIdx(e, "span_id")]
 
 \* err -> exception.message (+ exception.stacktrace when the error has a source)
